@@ -38,7 +38,9 @@ type backlogCase_ struct {
 func TestLargeBacklogOrder(t *testing.T) {
 	r := ev.New(t, "C10")
 	rapid.Check(t, func(t *rapid.T) {
-		c := backlogCase_{Quota: rapid.IntRange(1, 3).Draw(t, "quota"),
+		// mostly a trickle (1-3 per window: the backlog stays large), in one case of four a quota that drains a large
+		// backlog within a few windows (the heap shrinks from hundreds of waiters to a handful)
+		c := backlogCase_{Quota: rapid.SampledFrom([]int{1, 2, 3, 1, 2, 3, 1, 2, 3, 40, 100, 150}).Draw(t, "quota"),
 			First:    rapid.SampledFrom([]int{20, 120, 130, 200, 260}).Draw(t, "first"),
 			Second:   rapid.SampledFrom([]int{0, 10, 70, 130}).Draw(t, "second"),
 			Windows:  rapid.IntRange(3, 12).Draw(t, "windows"),
@@ -112,7 +114,8 @@ func backlogCase(t *rapid.T, r *ev.Recorder, c backlogCase_, n int) {
 		}
 		// collect what came back since the last call: released (true) or expired (false)
 		collect := func(wantReleased int) (released []int) {
-			deadline := time.Now().Add(guard)
+			// releases follow the clock within microseconds; five real seconds without them is "not released"
+			deadline := time.Now().Add(5 * time.Second)
 			for {
 				select {
 				case x := <-results:
